@@ -156,6 +156,14 @@ def method_call(ex, st, f, args, kwargs, node):
         if o.kind == "obj" and isinstance(o.data, dict) and isinstance(o.data.get(attr), VExt):
             keep = o.data[attr]
     ex.exc_any(st.fork(), f"{ex.loc(node)} call {f.b}")
+    # an integer handed to a method the model does not follow: the method may refuse it (raise) -- a later solver model in which that
+    # integer is large is not a counterexample of the real code (round 8: `handed_out`)
+    seen = set(st.ghost.get("c12_handed_out", ()))
+    for a in list(args) + list((kwargs or {}).values()):
+        if isinstance(a, VInt) and a.const() is None:
+            seen |= _consts(a.t)
+    if seen:
+        st.ghost["c12_handed_out"] = frozenset(seen)
     for a in args:
         if isinstance(a, VRef) and a is not selfv:
             o = st.obj(a.ref)
@@ -171,6 +179,45 @@ def method_call(ex, st, f, args, kwargs, node):
     if returns_int(fn):
         return [(st, VInt(z3.Int(fresh_name(f"int_from_input[{TAG}]"))))]
     return [(st, VUnk(f"repo:{f.b}"))]
+
+
+def _consts(t):
+    out, stack, seen = set(), [t], set()
+    while stack:
+        x = stack.pop()
+        if x.get_id() in seen or not z3.is_app(x):
+            continue
+        seen.add(x.get_id())
+        if x.num_args() == 0 and x.decl().kind() == z3.Z3_OP_UNINTERPRETED:
+            out.add(x.decl().name())
+        stack.extend(x.children())
+    return out
+
+
+def handed_out(st, t):
+    """the integer term mentions a constant that was an argument of an unmodelled method call on this path"""
+    h = st.ghost.get("c12_handed_out")
+    return bool(h) and bool(_consts(t) & set(h))
+
+
+def guard_method(mod, q):
+    """`q` is a small guard of the class: no loop / comprehension / yield, no `return <value>`, at least one `raise`, an `int` parameter,
+    no store to an attribute or subscript (pure check of its arguments against the object's state)"""
+    f = mod.functions.get(q)
+    if f is None or not q.startswith(CLS + ".") or sum(1 for _ in ast.walk(f)) > 200:
+        return False
+    ps = (f.args.posonlyargs + f.args.args)[1:]
+    if not any(p.annotation is not None and ast.unparse(p.annotation) == "int" for p in ps) or f.args.vararg or f.args.kwarg:
+        return False
+    own = _own(f)
+    if any(isinstance(n, (ast.For, ast.While, ast.ListComp, ast.GeneratorExp, ast.SetComp, ast.DictComp, ast.Yield, ast.YieldFrom, ast.Await,
+                          ast.Global, ast.Nonlocal, ast.Delete, ast.With, ast.Try)) for n in own):
+        return False
+    if any(isinstance(n, ast.Return) and n.value is not None and not (isinstance(n.value, ast.Constant) and n.value.value is None) for n in own):
+        return False
+    if any(isinstance(n, (ast.Attribute, ast.Subscript)) and isinstance(n.ctx, (ast.Store, ast.Del)) for n in own):
+        return False
+    return any(isinstance(n, ast.Raise) for n in own)
 
 
 def contracts(reg, mod):
@@ -214,6 +261,8 @@ def contracts(reg, mod):
                 if not isinstance(c.args[p], VInt):
                     return C12.NOTDEF          # a count of unknown origin: not decided by the model
                 n = c.args[p].t
+                if handed_out(c.st, n):
+                    return C12.NOTDEF          # an unmodelled method has seen the count (it may have refused it)
                 terms.append(z3.Or(n <= C12.REPEAT_CAP, n <= C12.BSIZE(s.t)) if isinstance(s, VExt) else n <= C12.REPEAT_CAP)
             return z3.And(*terms)
 
